@@ -383,6 +383,16 @@ static void runDict(const Case &c) {
         return std::lexicographical_compare((const uchar *)a.data(), (const uchar *)a.data() + a.size(),
                                             (const uchar *)b.data(), (const uchar *)b.data() + b.size()); });
       emit("T %s%s", joinStrs(v).c_str(), flaw.empty() ? "" : (" " + flaw).c_str());
+    } else if (o == "tabh" || o == "xph") { // summaries for large dictionaries: count + hash of the strings (each followed by a 0)
+      string flaw; vector<string> v;
+      Pat p(unhex(op.size() > 1 ? op[1] : "-"));
+      if (o == "tabh") v = drainStrs(d->extractTable(), flaw); else v = drainStrs(d->extractPrefix(p.p, (uint)p.n), flaw);
+      if (unordered || isHashKind(k)) std::sort(v.begin(), v.end(), [](const string &a, const string &b) {
+        return std::lexicographical_compare((const uchar *)a.data(), (const uchar *)a.data() + a.size(),
+                                            (const uchar *)b.data(), (const uchar *)b.data() + b.size()); });
+      uint64_t h = 1469598103934665603ULL;
+      for (auto &x : v) { h = fnv(x, h); h = fnv(string(1, '\0'), h); }
+      emit("%s %zu %016llx%s", o == "tabh" ? "TH" : "XH", v.size(), (unsigned long long)h, flaw.empty() ? "" : (" " + flaw).c_str());
     } else if (o == "tabx") { // k-th table entry == extract(k)
       string flaw; vector<string> v = drainStrs(d->extractTable(), flaw);
       size_t bad = 0;
